@@ -287,10 +287,9 @@ type mgCircuit struct {
 }
 
 const (
-	tagRecFirst  = 100 // harness callback registered before all gadgets' callbacks
-	tagRecMid    = 101 // between gadget callbacks
-	tagRecLast   = 102 // after all gadgets, commits Own
-	tagRecMidOwn = 103
+	tagRecFirst = 100 // harness callback registered before all gadgets' callbacks
+	tagRecMid   = 101 // between gadget callbacks
+	tagRecLast  = 102 // after all gadgets, commits Own
 )
 
 func (c *mgCircuit) Define(api frontend.API) error {
